@@ -251,3 +251,158 @@ def c_inline_scope(c, fault):
             and calls[1][1] is None)
     c.check("frame: the object's own constraint blocks are unchanged", m.constraint_model_l == blocks)
     c.check("the failure propagates to the caller", (exc is None) == (fault == "ok"))
+
+
+# ---- foreach expansion preserves the lowering of every statement / expression kind --------------------------------------------
+EXPANSION_KINDS = ("bin_elem_idx", "partselect_elem", "partselect_field_of_elem", "unary", "in_range", "unique_elem_scalar",
+                   "unique_two_fields", "soft", "implies", "if_else", "nested_bin", "elem_field_vs_scalar", "dynref_of_elem")
+
+
+@contract("array_constraint_builder.expansion_preserves_lowering", ["C04", "C01", "C08", "C06"],
+          ["vsc.visitors.array_constraint_builder.ArrayConstraintBuilder.visit_constraint_foreach",
+           "vsc.visitors.constraint_copy_builder.ConstraintCopyBuilder.visit_expr_partselect",
+           "vsc.visitors.constraint_copy_builder.ConstraintCopyBuilder.visit_constraint_unique",
+           "vsc.visitors.constraint_copy_builder.ConstraintCopyBuilder.visit_expr_bin",
+           "vsc.visitors.constraint_copy_builder.ConstraintCopyBuilder.visit_expr_unary",
+           "vsc.visitors.constraint_copy_builder.ConstraintCopyBuilder.visit_expr_in",
+           "vsc.visitors.constraint_copy_builder.ConstraintCopyBuilder.visit_constraint_soft",
+           "vsc.visitors.constraint_copy_builder.ConstraintCopyBuilder.visit_constraint_implies",
+           "vsc.visitors.constraint_copy_builder.ConstraintCopyBuilder.visit_constraint_if_else",
+           "vsc.visitors.constraint_copy_builder.ConstraintCopyBuilder.visit_expr_indexed_dynref",
+           "vsc.visitors.foreach_ref_expander.ForeachRefExpander.expand"],
+          lambda tier, seed: [(k, n, objs) for k in EXPANSION_KINDS for n in (1, 3) for objs in (False, True)
+                              if objs == (k in ("partselect_field_of_elem", "unique_two_fields", "elem_field_vs_scalar", "dynref_of_elem"))],
+          replay="none",
+          note="foreach expansion: 13 statement / expression kinds that mention the loop index or the element (comparison with "
+               "the index, part-select of the element / of a field of the element, ~, in, unique, soft, implies, if/else, nested "
+               "arithmetic, element field, dynamic constraint of the element) over scalar lists and object lists of 1 and 3 "
+               "elements. Obligation: the expansion has one copy of the body per element, and the copy for element j lowers to "
+               "exactly the term the original body lowers to with the index set to j (ghost solver, all values)")
+def c_expansion(c, kind, n, objs):
+    from vsc.model.field_array_model import FieldArrayModel
+    from vsc.model.field_scalar_model import FieldScalarModel
+    from vsc.model.field_composite_model import FieldCompositeModel
+    from vsc.model.constraint_block_model import ConstraintBlockModel
+    from vsc.model.constraint_foreach_model import ConstraintForeachModel
+    from vsc.model.constraint_expr_model import ConstraintExprModel
+    from vsc.model.constraint_soft_model import ConstraintSoftModel
+    from vsc.model.constraint_implies_model import ConstraintImpliesModel
+    from vsc.model.constraint_if_else_model import ConstraintIfElseModel
+    from vsc.model.constraint_scope_model import ConstraintScopeModel
+    from vsc.model.constraint_unique_model import ConstraintUniqueModel
+    from vsc.model.constraint_override_model import ConstraintOverrideModel
+    from vsc.model.expr_bin_model import ExprBinModel
+    from vsc.model.expr_unary_model import ExprUnaryModel
+    from vsc.model.unary_expr_type import UnaryExprType
+    from vsc.model.expr_partselect_model import ExprPartselectModel
+    from vsc.model.expr_in_model import ExprInModel
+    from vsc.model.expr_rangelist_model import ExprRangelistModel
+    from vsc.model.expr_range_model import ExprRangeModel
+    from vsc.model.expr_fieldref_model import ExprFieldRefModel
+    from vsc.model.expr_literal_model import ExprLiteralModel
+    from vsc.model.expr_array_subscript_model import ExprArraySubscriptModel
+    from vsc.model.expr_indexed_field_ref_model import ExprIndexedFieldRefModel
+    from vsc.model.expr_indexed_dynref_model import ExprIndexedDynRefModel
+    from vsc.model.bin_expr_type import BinExprType
+    from vsc.visitors.array_constraint_builder import ArrayConstraintBuilder
+    from vsc.visitors.variable_bound_visitor import VariableBoundVisitor
+    from pyvc.ghost_btor import GhostBoolector
+    root = FieldCompositeModel("o", True)
+    a = root.add_field(FieldScalarModel("a", 8, False, True))
+    if objs:
+        arr = root.add_field(FieldArrayModel("l", None, False, None, -1, -1, True, False))
+        for k in range(n):
+            e = FieldCompositeModel("e%d" % k, True)
+            e.add_field(FieldScalarModel("x", 8, False, True))
+            e.add_field(FieldScalarModel("y", 8, False, True))
+            dyn = ConstraintBlockModel("d", [ConstraintExprModel(ExprBinModel(ExprFieldRefModel(e.field_l[0]), BinExprType.Lt,
+                                                                              ExprLiteralModel(5, False, 8)))])
+            dyn.is_dynamic = True
+            e.add_dynamic_constraint(dyn)
+            arr.append(e)
+    else:
+        class T:
+            width = 8
+        arr = root.add_field(FieldArrayModel("l", T(), True, None, 8, False, True, False))
+        for _ in range(n):
+            arr.add_field()
+    fe = ConstraintForeachModel(ExprFieldRefModel(arr))
+    I = ExprFieldRefModel(fe.index)
+    EL = ExprArraySubscriptModel(ExprFieldRefModel(arr), I)          # l[i]
+    A = ExprFieldRefModel(a)
+
+    def lit(v, w=32):
+        return ExprLiteralModel(v, False, w)
+
+    def fld(j):                                                        # l[i].<field j>
+        return ExprIndexedFieldRefModel(EL, [j])
+    if kind == "bin_elem_idx":
+        body = [ConstraintExprModel(ExprBinModel(EL, BinExprType.Gt, I))]
+    elif kind == "partselect_elem":
+        body = [ConstraintExprModel(ExprBinModel(ExprPartselectModel(EL, lit(7), lit(4)), BinExprType.Eq, lit(5)))]
+    elif kind == "partselect_field_of_elem":
+        body = [ConstraintExprModel(ExprBinModel(ExprPartselectModel(fld(0), lit(3), lit(0)), BinExprType.Eq, lit(5)))]
+    elif kind == "unary":
+        body = [ConstraintExprModel(ExprUnaryModel(UnaryExprType.Not, ExprBinModel(EL, BinExprType.Eq, I)))]
+    elif kind == "in_range":
+        body = [ConstraintExprModel(ExprInModel(EL, ExprRangelistModel([ExprRangeModel(I, lit(9)), lit(200)])))]
+    elif kind == "unique_elem_scalar":
+        body = [ConstraintUniqueModel([EL, A])]
+    elif kind == "unique_two_fields":
+        body = [ConstraintUniqueModel([fld(0), fld(1)])]
+    elif kind == "soft":
+        body = [ConstraintSoftModel(ExprBinModel(EL, BinExprType.Eq, I))]
+    elif kind == "implies":
+        body = [ConstraintImpliesModel(ExprBinModel(A, BinExprType.Eq, I), [ConstraintExprModel(ExprBinModel(EL, BinExprType.Lt, lit(7)))])]
+    elif kind == "if_else":
+        body = [ConstraintIfElseModel(ExprBinModel(A, BinExprType.Gt, I),
+                                      ConstraintScopeModel([ConstraintExprModel(ExprBinModel(EL, BinExprType.Lt, lit(7)))]),
+                                      ConstraintScopeModel([ConstraintExprModel(ExprBinModel(EL, BinExprType.Gt, lit(70)))]))]
+    elif kind == "nested_bin":
+        body = [ConstraintExprModel(ExprBinModel(ExprBinModel(EL, BinExprType.Add, ExprBinModel(I, BinExprType.Mul, lit(2))), BinExprType.Le, A))]
+    elif kind == "elem_field_vs_scalar":
+        body = [ConstraintExprModel(ExprBinModel(fld(1), BinExprType.Ne, ExprBinModel(A, BinExprType.Add, I)))]
+    else:
+        body = [ConstraintExprModel(ExprIndexedDynRefModel(EL, 0))]
+    fe.constraint_l.extend(body)
+    blk = ConstraintBlockModel("c", [fe])
+    root.add_constraint(blk)
+    root.set_used_rand(True, 0)
+    bt = GhostBoolector()
+
+    def build_all_fields():
+        a.build(bt)
+        for e in arr.field_l:
+            if objs:
+                for f in e.field_l:
+                    f.build(bt)
+            else:
+                e.build(bt)
+    build_all_fields()
+    soft = kind == "soft"
+    # the original body, lowered with the index set to j
+    want = []
+    for j in range(n):
+        fe.index.set_val(j)
+        fe.index.is_used_rand = False
+        fe.index.dispose()
+        fe.index.build(bt)               # the index is a constant of the iteration
+        want.append([st.build(bt, soft) if soft else st.build(bt) for st in body])
+    fe.index.dispose()
+    bv = VariableBoundVisitor()
+    bv.process([root], [], False)
+    ArrayConstraintBuilder.build(root, bv.bound_m)
+    ov = blk.constraint_l[0]
+    c.check("the foreach statement is overridden for this call by its expansion", isinstance(ov, ConstraintOverrideModel) and ov.orig_constraint is fe)
+    exp = list(ov.new_constraint.constraint_l)
+    c.check("the expansion holds one copy of the body per element of the list", len(exp) == n * len(body), info="%d statements" % len(exp))
+    fe.index.set_val(n + 5)            # a stale index must not matter to the copies
+    for j in range(n):
+        for s, st in enumerate(body):
+            cp = exp[j * len(body) + s]
+            got = cp.build(bt, soft) if soft else cp.build(bt)
+            w = want[j][s]
+            c.check("the copy for element j lowers to the term the body lowers to with the index set to j (all values)",
+                    got is not None and w is not None and got.width == w.width and got.term == w.term,
+                    info="kind=%s j=%d copy=%s" % (kind, j, type(cp).__name__))
+            c.check("the copy is a statement of the same kind as the original", type(cp) is type(st))
